@@ -333,6 +333,7 @@ func RunDecoders(o *drv.Out) {
 		valid = append(valid, c06.Reencodings(c06.HonestSend("decoders", memo), r)[:40]...)
 	}
 	valid = append(valid, c06.HonestEthTxs()...)
+	valid = append(valid, c06.GroupInputs()...) // protobuf groups, well-formed and malformed (run once each, then mutated)
 	decs := decoders(probe)
 	o.Case("decoders")
 	panics, hangs := 0, 0
